@@ -7,6 +7,9 @@ VERIF = os.path.dirname(os.path.dirname(os.path.abspath(__file__)))
 
 # id -> (technique, level text, level note, design ref)
 CHECKS = {
+    "C05": ("online trace checker over hooked state operations (VM instructions + WASM host functions) against the cells of the published skeleton; cursor and VM/WASM state-word comparison after every sample",
+            "Every Get/Set/Mem/Delay state operation of both runtimes is recorded by cfg-guarded hooks and matched against the published layout (address, size, kind), walked independently by the harness and cross-checked against path_to_address; the cursor must return to 0 after each dsp call and both runtimes must hold identical words after every sample. Workload: generated stateful call trees and all shipped sources.",
+            "Trusts the hooks (add-only, reviewed) and the harness' prefix-sum walk; state in if arms is a known finding kept out of general exploration; WASM closure storages grow lazily and are not judged.", "DESIGN.md §3 C05"),
     "C01": ("differential oracle VM vs WASM over generated + shipped + mutated programs (outputs, accept/reject, state words), hostile dsp inputs",
             "Runs every case on both back ends through the CLI's own code path and compares accept/reject, channel counts, every output word bitwise, return codes and flat state words after every sample; cases come from a typed program generator (all features, NaN/inf/-0/subnormal inputs), the shipped sources and operator/constant mutations of them. Held on what was observed; disagreement classes already triaged are listed as known findings and kept out of general exploration by named generator quarantines.",
             "Trusts the harness runners (same call sequence as mimium-cli::run_file) and the dynamic quarantine predicate evaluated by the reference interpreter.", "DESIGN.md §3 C01"),
